@@ -717,6 +717,9 @@ func (env *Env) evalCall(x *CExpr) cval {
 			return cval{t: mk("re.++", SRegLan, mk(fmt.Sprintf("(_ re.loop %d %d)", lo, lo), SRegLan, reAllChar), reAll), ghost: "reglan"}
 		}
 		return cval{t: mk(fmt.Sprintf("(_ re.loop %d %d)", lo, hi), SRegLan, reAllChar), ghost: "reglan"}
+	case "charAt":
+		// charAt(s, i): code point of the i-th character (-1 when out of range)
+		return cval{t: mk("str.to_code", SInt, mk("str.at", SString, arg(0).t, arg(1).t)), ty: intT}
 	case "repeat":
 		a := x.Args[0]
 		n, ok := intVal(arg(1).t)
@@ -869,12 +872,33 @@ func (env *Env) evalMethod(x *CExpr) cval {
 		cfail("no method %s on %s", x.Name, rt)
 	}
 	fn := e.P.Prog.MethodValue(sel)
-	if fn == nil || len(fn.Blocks) == 0 {
-		cfail("method %s has no body", x.Name)
-	}
 	args := []Val{recv.t}
 	for _, a := range x.Args[1:] {
 		args = append(args, env.eval(a).t)
+	}
+	// ANTLR contexts, tokens, parsers: pure uninterpreted functions of the receiver (same symbols as in the code)
+	isAntlr := false
+	if named, ok := derefNamed(rt); ok && named.Obj().Pkg() != nil && isAntlrPkg(named.Obj().Pkg().Path()) {
+		isAntlr = true
+	}
+	if isAntlr && (fn == nil || len(fn.Blocks) == 0 || antlrStatic(fn)) {
+		r := recv.t
+		if r.Sort == SIface {
+			r = IVal(r)
+		}
+		var as []*Term
+		for _, a := range args[1:] {
+			as = append(as, a.(*Term))
+		}
+		sig := sel.Type().(*types.Signature)
+		if sig.Results().Len() != 1 {
+			cfail("method %s does not return a single value", x.Name)
+		}
+		v := e.antlrResult(x.Name, r, as, sig.Results())
+		return cval{t: v.(*Term), ty: sig.Results().At(0).Type()}
+	}
+	if fn == nil || len(fn.Blocks) == 0 {
+		cfail("method %s has no body", x.Name)
 	}
 	if !e.canInline(fn) {
 		cfail("method %s is not a small loop-free function", x.Name)
@@ -934,6 +958,12 @@ func (e *Exec) exitEnv() *Env {
 		}
 		bindResults(names, e.Fn, ret)
 	}
+	// ghost: number of NotifyErrorListeners calls made by this function
+	errs := e.errsGhost
+	if errs == nil {
+		errs = IntLit(0)
+	}
+	names["$errs"] = cval{t: errs, ty: types.Typ[types.Int]}
 	return &Env{e: e, st: e.exit, old: e.entry, names: names, oldNames: env.names, pkg: e.Fn.Pkg.Pkg}
 }
 
